@@ -75,7 +75,11 @@ static const char* MODE_NAME[] = {"raw", "framed", "nested"};
 // recomputed; NESTED: every length field.  A field whose own bytes are touched by the edit is left alone.  Width changes
 // of re-encoded varints propagate to the fields enclosing them (fixpoint).  *fixed_framing / *fixed_other count the
 // fields that received a new value (so the caller can drop cases identical to a weaker mode).
-static std::string apply_edit(const Seed& s, size_t a, size_t b, const std::string& R, Mode mode, int* fixed_framing = nullptr, int* fixed_other = nullptr) {
+// [ea,eb) (default [a,b)) is the range whose enclosing fields are recomputed: a duplicated unit is a sibling of the original,
+// so the fields enclosing the original count, not a child that happens to end where the copy is inserted.
+static std::string apply_edit(const Seed& s, size_t a, size_t b, const std::string& R, Mode mode, int* fixed_framing = nullptr, int* fixed_other = nullptr,
+                              size_t ea = ~size_t(0), size_t eb = ~size_t(0)) {
+    if (ea == ~size_t(0)) { ea = a; eb = b; }
     struct Rep { size_t off, len; std::string bytes; };
     std::vector<Rep> reps;
     reps.push_back(Rep{a, b - a, R});
@@ -95,7 +99,7 @@ static std::string apply_edit(const Seed& s, size_t a, size_t b, const std::stri
             for (size_t i = 0; i < n; ++i) {
                 if (!elig[i]) continue;
                 const Fld& f = s.flds[i];
-                int64_t delta = (f.cb <= a && b <= f.ce) ? d0 : 0;
+                int64_t delta = (f.cb <= ea && eb <= f.ce) ? d0 : 0;
                 for (size_t j = 0; j < n; ++j) if (j != i && elig[j] && nw[j] != s.flds[j].width && f.cb <= s.flds[j].off && s.flds[j].off + s.flds[j].width <= f.ce)
                     delta += static_cast<int64_t>(nw[j]) - static_cast<int64_t>(s.flds[j].width);
                 const uint64_t v = f.value + static_cast<uint64_t>(delta);
@@ -292,7 +296,7 @@ static Case make_case(uint64_t rank) {
         case K_UDEL: case K_UDUP: {
             const Range& r = s.units[B.idx];
             if (B.kind == K_UDEL) c.input = apply_edit(s, r.a, r.b, "", B.mode, &ff, &fo);
-            else c.input = apply_edit(s, r.b, r.b, s.data.substr(r.a, r.b - r.a), B.mode, &ff, &fo);
+            else c.input = apply_edit(s, r.b, r.b, s.data.substr(r.a, r.b - r.a), B.mode, &ff, &fo, r.a, r.b);
             ecl = std::string(B.kind == K_UDEL ? "E8-" : "E9-") + MODE_NAME[B.mode]; label = r.label;
             snprintf(buf, sizeof buf, "%s unit %s [%zu,%zu)", B.kind == K_UDEL ? "delete" : "duplicate", r.label.c_str(), r.a, r.b); break; }
         default: break;
